@@ -107,6 +107,11 @@ HIERARCHIES = {
     "same-name-two-specs": [L("P1", "protocol", [], D(TABLE), D("CP_Baudrate")),
                             L("BV", "base-variant", ["P1"], D(TABLE, spec=DOIP_TABLE)),
                             L("EV", "ecu-variant", ["BV"], D(TABLE, spec=DOIP_TABLE), D("CP_Baudrate"))],
+    # a protocol that derives from another protocol
+    "protocol-derives-protocol": [L("P0", "protocol", [], D("CP_Baudrate"), D(TABLE), D("CP_TesterPresentTime")),
+                                  L("P1", "protocol", ["P0"], D("CP_TesterPresentTime")),
+                                  L("BV", "base-variant", ["P1"], D("CP_CanFuncReqId")),
+                                  L("EV", "ecu-variant", ["BV"])],
     # protocol names one of which contains the other
     "protocol-name-contains": [L("uds", "protocol", [], D("CP_Baudrate", "uds"), D(TABLE, "uds")),
                                L("uds_fd", "protocol", [], D("CP_TesterPresentTime", "uds_fd")),
